@@ -114,7 +114,7 @@ func valueFor(k cfgKey, i int) (text string, norm string) {
 		v := pick([]string{"trace", "info", "warn", "error", "fatal", "debug"})
 		return v, v
 	case k.Kind == "string":
-		v := pick([]string{"value-a", "with space", "colon:inside", "ünïcode", "./some/path.db", "x", "UPPER_lower-1"})
+		v := pick([]string{"value-a", "tok_$2b$10$abcdefgh", "with space", "${HOME}/x.db", "colon:inside", "ünïcode", "./some/path.db", "x", "UPPER_lower-1", "pa$$w0rd$PATH"})
 		return v, v
 	case k.Kind == "bool":
 		v := pick([]string{"true", "false"})
@@ -340,7 +340,7 @@ var propC20 = Prop[*C20Plan]{
 		for i := 0; i < n; i++ {
 			src := rapid.IntRange(1, 3).Draw(t, "src")
 			p.Assign = append(p.Assign, Assignment{Key: rapid.IntRange(0, 200).Draw(t, "key"), Env: src&1 != 0, File: src&2 != 0,
-				EnvV: rapid.IntRange(0, 6).Draw(t, "ev"), FileV: rapid.IntRange(0, 6).Draw(t, "fv")})
+				EnvV: rapid.IntRange(0, 9).Draw(t, "ev"), FileV: rapid.IntRange(0, 9).Draw(t, "fv")})
 		}
 		return p
 	},
